@@ -20,7 +20,10 @@ worker thread (`Worker::new` loop + the wrapped closure built in `process_jobs`)
       `done r`   → `running_jobs.fetch_sub(1)`                               progress.rs complete_job/fail_job
       `dec r`    → `completed_jobs.fetch_add(1)` | `failed_jobs.fetch_add(1)`
       `cnt r`    → `result_sender.send((idx, Success|Failed))`               worker.rs:115 / 126 / 156 / 167
-      `snt`      → non-custom ∧ Err ∧ `stop_on_error`: `cancelled.store(true)` worker.rs:176-178
+                   (the job leaves `inflight`; non-custom ∧ Err ∧ `stop_on_error`: the worker
+                   moves to `storing`, otherwise it goes back to the job channel)
+  * `store k` the worker that has just reported the failure of non-custom job `k`:
+                   `cancelled.store(true)`                                   worker.rs:176-178
                    (custom jobs never store: worker.rs:96-138 has no such statement)
 collector: `results[idx] = Some(result)` for every message, then `results.into_iter().flatten()`
   — modelled by the log `sent` and `summary` (slot array read-out).
@@ -65,7 +68,6 @@ deriving DecidableEq, Repr, Hashable
 inductive Pc
   | got | started | go
   | done (okr : Bool) | dec (okr : Bool) | cnt (okr : Bool)
-  | snt
 deriving DecidableEq, Repr, Hashable
 
 /-- A job in flight on some worker thread. -/
@@ -92,6 +94,8 @@ structure St where
   extDone : Bool
   queue : List Nat
   inflight : List Fl
+  /-- workers between `send(Failed)` and `cancelled.store(true)` (non-custom, stop_on_error) -/
+  storing : List Fl
   idleK : Nat
   idleN : Nat
   /-- jobs whose operation panicked (their worker thread is gone) -/
@@ -119,11 +123,12 @@ inductive Act
   | dLoad | dSendC | dEnq | dClose
   | deq (knows : Bool)
   | w (k : Nat)
+  | store (k : Nat)
   | extCancel | monExit
 deriving DecidableEq, Repr
 
 def init (cfg : Cfg) : St :=
-  { dnext := 0, dpc := .top, cancelled := cfg.pre, extDone := false, queue := [], inflight := [],
+  { dnext := 0, dpc := .top, cancelled := cfg.pre, extDone := false, queue := [], inflight := [], storing := [],
     idleK := 0, idleN := cfg.workers, lost := [], running := 0, completed := 0, failed := 0,
     startedN := 0, finishedN := 0, sent := [], ranLog := [], provLog := [], ranLateC := [],
     ranLateF := [], mon := cfg.monitor }
@@ -147,12 +152,11 @@ def updFl (k : Nat) (g : Fl → Fl) (l : List Fl) : List Fl :=
   l.map (fun f => if f.idx == k then g f else f)
 def dropFl (k : Nat) (l : List Fl) : List Fl := l.filter (fun f => !(f.idx == k))
 
-def alive (s : St) : Nat := s.idleK + s.idleN + s.inflight.length
+def alive (s : St) : Nat := s.idleK + s.idleN + s.inflight.length + s.storing.length
 
-/-- the worker holding `f` goes back to waiting on the job channel -/
-def release (s : St) (f : Fl) : St :=
-  let s := { s with inflight := dropFl f.idx s.inflight }
-  if f.wk then { s with idleK := s.idleK + 1 } else { s with idleN := s.idleN + 1 }
+/-- a worker goes back to waiting on the job channel -/
+def release (s : St) (wk : Bool) : St :=
+  if wk then { s with idleK := s.idleK + 1 } else { s with idleN := s.idleN + 1 }
 
 def kindOf (okr : Bool) : Kind := if okr then .success else .failed
 
@@ -192,10 +196,9 @@ def wstep (cfg : Cfg) (s : St) (f : Fl) : St :=
     if r then { s with completed := s.completed + 1, inflight := setPc k (.cnt r) s.inflight }
     else { s with failed := s.failed + 1, inflight := setPc k (.cnt r) s.inflight }
   | .cnt r =>
-    let s := { s with sent := insSent (k, kindOf r) s.sent }
-    if !sp.custom && !r && cfg.soe then { s with inflight := setPc k .snt s.inflight }
-    else release s f
-  | .snt => release { s with cancelled := true } f
+    let s := { s with sent := insSent (k, kindOf r) s.sent, inflight := dropFl k s.inflight }
+    if !sp.custom && !r && cfg.soe then { s with storing := s.storing ++ [f] }
+    else release s f.wk
 
 def step (cfg : Cfg) (s : St) : Act → Option St
   | .dLoad =>
@@ -228,6 +231,10 @@ def step (cfg : Cfg) (s : St) : Act → Option St
     match findFl k s.inflight with
     | none => none
     | some f => some (wstep cfg s f)
+  | .store k =>
+    match findFl k s.storing with
+    | none => none
+    | some f => some (release { s with cancelled := true, storing := s.storing.erase f } f.wk)
   | .extCancel =>
     if cfg.ext ∧ s.extDone = false then some { s with cancelled := true, extDone := true } else none
   | .monExit =>
@@ -237,7 +244,7 @@ def step (cfg : Cfg) (s : St) : Act → Option St
 /-- every action that can possibly be enabled in `s` -/
 def acts (s : St) : List Act :=
   [.dLoad, .dSendC, .dEnq, .dClose, .deq true, .deq false, .extCancel, .monExit]
-    ++ s.inflight.map (fun f => .w f.idx)
+    ++ s.inflight.map (fun f => .w f.idx) ++ s.storing.map (fun f => .store f.idx)
 
 def next (cfg : Cfg) (s : St) : List St := (acts s).filterMap (step cfg s)
 
@@ -255,7 +262,7 @@ inductive Reachable (cfg : Cfg) : St → Prop
 /-- `process_jobs` has returned (all workers joined, collector drained): dispatcher closed,
 nothing in flight, nothing a live worker could still dequeue. -/
 def workersDone (s : St) : Bool :=
-  s.dpc == .closed && s.inflight.isEmpty && (s.queue.isEmpty || s.idleK + s.idleN == 0)
+  s.dpc == .closed && s.inflight.isEmpty && s.storing.isEmpty && (s.queue.isEmpty || s.idleK + s.idleN == 0)
 
 /-- `execute` / `process_jobs` has returned to the caller -/
 def quiescent (s : St) : Bool := workersDone s && !s.mon
